@@ -115,6 +115,49 @@ def cases(tier, seed):
     return out
 
 
+def run_history_bursts(arrivals, originals, obs, group):
+    ''' As run_history, but ``group`` fragments arrive back to back before the event loop runs again (one read of a busy
+    convergence layer); the deliveries due are compared after each group. '''
+    from vf.world.sim import Sim
+    from vf import bp_harness as bh
+    sim = Sim(0, 'eager')
+    node = bh.BpNode(sim, NODE, rx_routes=[(r'dtn://me/.*', 'deliver')], tx_routes=[dict(pattern=r'.*')])
+    coverage = {key: set() for key in originals}
+    done = set()
+    problems = []
+    for start in range(0, len(arrivals), group):
+        n_before = len(node.delivered())
+        due = []
+        for (key, lo, hi, enc) in arrivals[start:start + group]:
+            err = node.recv(enc)
+            obs['arrivals'] += 1
+            if err is not None:
+                return ['arrival in group at %d: receive raised %s: %s' % (start, type(err).__name__, err)]
+            coverage[key] |= set(range(lo, hi))
+            if key not in done and coverage[key] == set(range(originals[key][0])):
+                due.append(key)
+                done.add(key)
+                obs['deliveries_due'] += 1
+        res = sim.settle(20000)
+        if sim.world.callback_errors:
+            cerr = sim.world.callback_errors[0]
+            return ['group at %d: loop callback raised %s: %s' % (start, cerr.exc_type, cerr.exc)]
+        if res != 'quiescent':
+            return ['group at %d: loop not quiescent (%s)' % (start, res)]
+        new = node.delivered()[n_before:]
+        got = [tuple(rec['ident'][:3]) for rec in new]
+        if sorted(got) != sorted(due):
+            problems.append('%d fragments arriving back to back (arrivals %d..%d): delivered %s, model says %s' % (
+                group, start, start + group - 1, got, due))
+            break
+        for rec in new:
+            obs['deliveries_seen'] += 1
+            if rec['payload'] != originals[tuple(rec['ident'][:3])][1]:
+                problems.append('group at %d: reassembled payload differs from the original' % start)
+    obs['burst_histories'] = obs.get('burst_histories', 0) + 1
+    return problems
+
+
 def run_history(arrivals, originals, obs, verifying=None):
     ''' arrivals: list of (bundle key, lo, hi, encoded fragment); originals: key -> (total, payload, exts).
     verifying: None, or dict(accept=bool): the destination is an agent that holds the keys and verifies security blocks
@@ -292,6 +335,21 @@ def run_case(case):
                     seq.insert(pos, dup)
                     obs['duplicates_injected'] += 1
                     play(seq, originals, 'dup')
+        # a copy damaged in transit (payload block CRC fails) arrives before the intact fragment: it is no fragment at all
+        for perm in list(itertools.permutations(arrivals))[:6]:
+            for victim in perm:
+                (vkey, vlo, vhi, venc) = victim
+                crc_type = bpv7.decode(venc)[0]['blocks'][-1]['crc_type']
+                if not crc_type or vhi <= vlo:
+                    continue
+                pos = len(venc) - (5 if crc_type == 1 else 7)
+                bad = venc[:pos] + bytes([venc[pos] ^ 0x10]) + venc[pos + 1:]
+                if bpv7.crc_failures(bad) == []:
+                    continue
+                seq = list(perm)
+                seq.insert(seq.index(victim), (vkey, vlo, vlo, bad))
+                obs['damaged_copies_injected'] = obs.get('damaged_copies_injected', 0) + 1
+                play(seq, originals, 'damaged-copy-first')
     elif kind == 'refrag':
         # the same bundle arrives as two DIFFERENT complete fragmentations (fragmented twice on different paths), one whole set
         # after the other or interleaved, optionally with another bundle in between: still exactly one delivery
@@ -317,6 +375,18 @@ def run_case(case):
                 rng.shuffle(arrivals)
             obs['refragmented_histories'] = obs.get('refragmented_histories', 0) + 1
             play(arrivals, originals, 'refragmented-' + mode)
+            # one cover is a single fragment that carries the whole payload (offset 0, length = total), or the bundle arrives
+            # unfragmented as well (another path did not need to fragment it): still exactly one delivery
+            whole = (keys[0], 0, total, make_fragment(keys[0], total, 0, total, payload, exts))
+            pri = dict(version=7, flags=0, crc_type=1, dest=DEST, src=keys[0][0], report_to='dtn:none', create_time=keys[0][1], seqno=keys[0][2],
+                       lifetime=3600000, frag_offset=None, total_adu_len=None, crc=None)
+            unfrag = (keys[0], 0, total, bpv7.encode(dict(primary=pri, blocks=[dict(blk) for blk in exts] +
+                                                          [dict(type=1, num=1, flags=0, crc_type=0, data=payload, crc=None)])))
+            for single in (whole, unfrag):
+                for arrivals2 in (sets[0] + [single], [single] + sets[0], [single, single], [whole, unfrag], [unfrag, whole],
+                                  sets[0][:1] + [single] + sets[0][1:]):
+                    obs['whole_adu_histories'] = obs.get('whole_adu_histories', 0) + 1
+                    play(list(arrivals2), originals, 'whole-adu-fragment' if single is whole else 'unfragmented-copy')
     elif kind == 'rand':
         for _ in range(case['count']):
             keys = _bundle_set(rng, 1)
@@ -340,6 +410,12 @@ def run_case(case):
             rng.shuffle(arrivals)
             obs['interleaved_histories'] += 1
             play(arrivals, originals, 'interleaved')
+            # the same fragments, several per loop turn (the completing fragments of two bundles can arrive in one burst)
+            group = rng.choice([2, 3, len(arrivals)])
+            for item in run_history_bursts(arrivals, originals, obs, group):
+                violations.append(dict(key=None, what='[interleaved-bursts] %s' % item,
+                                       detail=dict(arrivals=[(str(a[0]), a[1], a[2]) for a in arrivals][:40], group=group)))
+            evaluations += 1
     elif kind == 'many':
         # many bundles in reassembly at the same time: all first halves, then all second halves (or one straggler at the very end)
         for _ in range(case['count']):
